@@ -284,7 +284,24 @@ func imageAt(d *SimDisk, writes int, torn int) (img []byte, logPos int, inFlight
 		}
 		copy(img[e.Off:], e.Data[:n])
 	}
-	for i := range d.Log {
+	// Everything before the last crash marker is history of an earlier
+	// process: the marker holds the image that survived, and no cut can lie
+	// before it.  Changes before it still count, so that the numbering of
+	// cut points is the same before and after a crash.
+	first := 0
+	for i := len(d.Log) - 1; i >= 0; i-- {
+		if d.Log[i].Kind == 'C' {
+			first = i
+			break
+		}
+	}
+	for i := 0; i < first; i++ {
+		e := &d.Log[i]
+		if (e.Kind == 'W' && (!e.Err || e.N > 0)) || (e.Kind == 'T' && !e.Err) {
+			cnt++
+		}
+	}
+	for i := first; i < len(d.Log); i++ {
 		e := &d.Log[i]
 		changing := false
 		switch e.Kind {
@@ -329,8 +346,7 @@ func imageAt(d *SimDisk, writes int, torn int) (img []byte, logPos int, inFlight
 	return img, pos, nil
 }
 
-// countChanges returns the number of image-changing entries in the log
-// after the last crash marker.
+// countChanges returns the number of image-changing entries in the log.
 func countChanges(d *SimDisk) int {
 	cnt := 0
 	for i := range d.Log {
@@ -428,6 +444,26 @@ func (w *World) CrashImage(di int, cs *CrashSpec) (img []byte, stack []MFlush) {
 			}
 		}
 		img = append(img, junk...)
+		// More generally the tail may not complete anything: no complete,
+		// self-consistent root record may end inside it (for instance the
+		// closing magic bytes right behind a record that an earlier crash of
+		// the same history had cut 12 bytes short).  The property excludes
+		// junk that is or completes such a record.
+		junkMakesRoot := func() bool {
+			for end := int64(len(base)) + 1; end <= int64(len(img)); end++ {
+				if rootRecordAt(img, end) != nil {
+					return true
+				}
+			}
+			return false
+		}
+		if junkMakesRoot() {
+			img[len(base)] ^= 0xff
+			if junkMakesRoot() {
+				img = img[:len(base)]
+			}
+			w.probe("crash-junk-tail-would-complete-a-root-record-altered")
+		}
 	}
 	// The oracle is a function of the surviving image, not of how it came
 	// about: when the bytes already in the file behind the write position
